@@ -382,6 +382,8 @@ package formula
 //@ func (*Parser).makeBinaryExpression
 //@   tags [C01,C15]
 //@   requires p != nil && p.scanner != nil && okx(left)
+//@   requires[C01] okx(right) && operator != nil
+//@   requires[C15] xpos(left) <= xend(left) && xend(left) <= operator.pos && operator.pos <= operator.end && operator.end <= xpos(right) && xpos(right) <= xend(right) && xend(right) <= spos(p)
 //@   assigns p.nodeCount
 //@   panics never
 //@   ensures result != nil && fresh(result) && result.Left == left && result.Operator == operator && result.Right == right
@@ -575,8 +577,12 @@ package formula
 //@   decreases rem(p), 18
 //@   ensures pres(p, result) && xpos(result) == xpos(expr)
 //@   ensures[C02] cls(result) >= 13
+//@   ensures[C01] is(result, *CallExpression) && result != expr ==> okx(as(result, *CallExpression).Expression) && as(result, *CallExpression).Arguments != nil
+//@   ensures[C15] is(result, *CallExpression) && result != expr ==> xpos(as(result, *CallExpression).Expression) == xpos(result) && xend(as(result, *CallExpression).Expression) <= xend(result)
 //@   at call (*Parser).parseArgumentList: assert[C02,C14] !lbk(p)
 //@   loop 1: invariant pinv(p) && rem(p) <= old(rem(p)) && ndp(p) >= old(ndp(p)) && okx(expr) && xend(expr) == spos(p) && xpos(expr) == old(xpos(expr)) && xpos(expr) <= xend(expr) && cls(expr) >= 13
+//@           invariant[C01] (is(expr, *CallExpression) && expr != old(expr) ==> okx(as(expr, *CallExpression).Expression) && as(expr, *CallExpression).Arguments != nil)
+//@           invariant[C15] (is(expr, *CallExpression) && expr != old(expr) ==> xpos(as(expr, *CallExpression).Expression) == xpos(expr) && xend(as(expr, *CallExpression).Expression) <= xend(expr))
 //@           invariant rem(p) == old(rem(p)) ==> tok(p) == old(tok(p))
 //@           decreases rem(p)
 
@@ -588,8 +594,14 @@ package formula
 //@   decreases rem(p), 17
 //@   ensures pres(p, result) && xpos(result) == xpos(expr)
 //@   ensures[C02] cls(result) >= 13
+//@   ensures[C01] is(result, *SelectorExpression) && result != expr ==> okx(as(result, *SelectorExpression).Expression) && as(result, *SelectorExpression).Name != nil
+//@   ensures[C15] is(result, *SelectorExpression) && result != expr ==> xpos(as(result, *SelectorExpression).Expression) == xpos(result) && xend(as(result, *SelectorExpression).Expression) <= as(result, *SelectorExpression).Name.pos && as(result, *SelectorExpression).Name.end <= xend(result)
+//@   ensures result != expr ==> is(result, *SelectorExpression)
 //@   at call (*Parser).gotToken: assert[C02,C14] !lbk(p)
 //@   loop 1: invariant pinv(p) && rem(p) <= old(rem(p)) && ndp(p) >= old(ndp(p)) && okx(expr) && xend(expr) == spos(p) && xpos(expr) == old(xpos(expr)) && xpos(expr) <= xend(expr) && cls(expr) >= 13
+//@           invariant expr != old(expr) ==> is(expr, *SelectorExpression)
+//@           invariant[C01] (is(expr, *SelectorExpression) && expr != old(expr) ==> okx(as(expr, *SelectorExpression).Expression) && as(expr, *SelectorExpression).Name != nil)
+//@           invariant[C15] (is(expr, *SelectorExpression) && expr != old(expr) ==> xpos(as(expr, *SelectorExpression).Expression) == xpos(expr) && xend(as(expr, *SelectorExpression).Expression) <= as(expr, *SelectorExpression).Name.pos && as(expr, *SelectorExpression).Name.end <= xend(expr))
 //@           invariant rem(p) == old(rem(p)) ==> tok(p) == old(tok(p))
 //@           decreases rem(p)
 
